@@ -34,10 +34,20 @@ type canonFn struct {
 	local map[*ssa.Alloc]string
 }
 
+// inventoryComplete: the table lists every function (tables written before
+// adopt.go existed listed only functions with parameters or named locals).
+var inventoryComplete bool
+
 func init() {
 	frozenNames = map[string]fnNames{}
 	if len(namesJSON) > 0 {
 		_ = json.Unmarshal(namesJSON, &frozenNames)
+	}
+	for _, n := range frozenNames {
+		if len(n.Params) == 0 && len(n.Locals) == 0 {
+			inventoryComplete = true
+			break
+		}
 	}
 }
 
@@ -224,11 +234,9 @@ func genNames(w *World) []byte {
 		if origin(f) != f || f.Synthetic != "" {
 			continue
 		}
-		n := currentNames(f)
-		if len(n.Params) == 0 && len(n.Locals) == 0 {
-			continue
-		}
-		out[fnID(f)] = n
+		// every function is listed (also without parameters and locals): the table is
+		// the inventory of reviewed functions as well (adopt.go)
+		out[fnID(f)] = currentNames(f)
 	}
 	b, _ := json.MarshalIndent(out, "", " ")
 	return append(b, '\n')
